@@ -32,7 +32,10 @@ BOUNDS = {"int": (-2 ** 63, 2 ** 63 - 1), "int64": (-2 ** 63, 2 ** 63 - 1), "int
 METHODS = {"I64": (["int64"], "int64"), "I32": (["int32"], "int32"), "I8": (["int8"], "int8"), "U8": (["uint8"], "uint8"),
            "U64": (["uint64"], "uint64"), "Int": (["int"], "int"), "F32": (["float32"], "float32"),
            "F64": (["float64"], "float64"), "Str": (["string"], "string"), "B": (["bool"], "bool"),
-           "Mix": (["int", "float64", "string"], "string"), "None": ([], "")}
+           "Mix": (["int", "float64", "string"], "string"), "None": ([], ""),
+           "IS": (["int", "string"], "string"), "SI": (["string", "int"], "int"), "II": (["int", "int"], "int"),
+           "SS": (["string", "string"], "bool"), "FF": (["float64", "float64"], "float64"), "BI": (["bool", "int"], "bool"),
+           "SIF": (["string", "int", "float64"], "int"), "III": (["int", "int", "int"], "int"), "I8U8": (["int8", "uint8"], "int8")}
 
 
 BIG = "x" * 65536
@@ -352,6 +355,20 @@ def gen_cases(ck):
         for combo in itertools.product(*pools) if len(params) <= 1 else [tuple(rng.choice(pl) for pl in pools) for _ in range(40)]:
             for rv in ret_pool(ret)[:2]:
                 cases.append({"k": "method", "m": m, "args": list(combo), "retv": rv})
+    # position matrix on the METHOD path: each multi-parameter method, each position holding the one
+    # off-sort argument (others exact), and the all-exact call
+    exact_m = dict(exact, int8=[I(3), I(5), I(7)], uint8=[I(3), I(5), I(7)])
+    sort_m = dict(sort_of, int8="int", uint8="int")
+    for m, (params, ret) in METHODS.items():
+        if len(params) < 2:
+            continue
+        rv = ret_pool(ret)[-1]
+        cases.append({"k": "method", "m": m, "args": [exact_m[p][i] for i, p in enumerate(params)], "retv": rv})
+        for pos in range(len(params)):
+            for off in off_pool + [I(300), I(-200)]:
+                if off["k"] == sort_m[params[pos]] and params[pos] not in ("int8", "uint8"):
+                    continue
+                cases.append({"k": "method", "m": m, "args": [off if i == pos else exact_m[p][i] for i, p in enumerate(params)], "retv": rv})
     # generic converter: every T x every scalar pool value
     gvals = [I(0), I(1), I(-1), I(127), I(128), I(-129), I(255), I(256), I(65535), I(65536), I(2 ** 31 - 1), I(2 ** 31), I(-2 ** 31 - 1),
              I(2 ** 32), I(2 ** 63 - 1), I(-2 ** 63), I(2 ** 53 + 1), F(0.0), F(-0.0), F(1.5), F(-1.5), F(255.9), F(256.0), F(-0.5), F(3e9), F(1e19),
@@ -477,5 +494,5 @@ def main(ck):
     ck.cov["outcomes"] = {k: sum(1 for o in outs if o["out"] == k) for k in ("val", "nil", "throw", "panic", "go")}
     ck.samples = [cases[40], cases[len(cases) // 2], cases[-1]]
     ck.finish(level="proof", evaluations=len(cases), distinct_nontrivial=len(nontriv),
-              rule="reflective path: every parameter kind (14 supported + an unsupported slice) x a per-kind pool (min, max, min-1, max+1 of the kind, 0, +-1, int64 limits, +-0.0, subnormal, float32 max / just above / 1e308, inf, NaN, empty, multi-byte, invalid UTF-8 and 64 KiB strings, values of every other script kind, null, array) x 5 result kinds at arity 1; every signature of arity 2 and 3 over the 14 kinds (196 + 2744) with pool-sampled arguments and a random result kind; POSITION matrix: every signature of arity 2 and 3 over {int, float64, string, bool} x result kind among them x every argument position holding one argument of another script sort (int, fractional float, non-numeric and numeric string, bool, null, array) while all other arguments are exactly of their parameter's sort; every result kind x boundary results at arity 0; 12 methods of a registered struct; CONCURRENT: 8 workers x 4 000 calls each of one registered function and of one struct method, from goroutines and from spawned script coroutines, arguments tagged per caller and checked in Go, repeated under -race (4 x 300); generic path: ConvertFromIndex[T] for all 14 T x 41 scalar/boundary values (thorough: + 20 000 random ints/floats); non-trivial = distinct call with at least one parameter, or distinct generic conversion",
+              rule="reflective path: every parameter kind (14 supported + an unsupported slice) x a per-kind pool (min, max, min-1, max+1 of the kind, 0, +-1, int64 limits, +-0.0, subnormal, float32 max / just above / 1e308, inf, NaN, empty, multi-byte, invalid UTF-8 and 64 KiB strings, values of every other script kind, null, array) x 5 result kinds at arity 1; every signature of arity 2 and 3 over the 14 kinds (196 + 2744) with pool-sampled arguments and a random result kind; POSITION matrix: every signature of arity 2 and 3 over {int, float64, string, bool} x result kind among them x every argument position holding one argument of another script sort (int, fractional float, non-numeric and numeric string, bool, null, array) while all other arguments are exactly of their parameter's sort; every result kind x boundary results at arity 0; 21 methods of a registered struct (nine with two or three parameters, with the position matrix); CONCURRENT: 8 workers x 4 000 calls each of one registered function and of one struct method, from goroutines and from spawned script coroutines, arguments tagged per caller and checked in Go, repeated under -race (4 x 300); generic path: ConvertFromIndex[T] for all 14 T x 41 scalar/boundary values (thorough: + 20 000 random ints/floats); non-trivial = distinct call with at least one parameter, or distinct generic conversion",
               traces=len(terms))
